@@ -140,6 +140,14 @@ def batchCountsEveryDelivery : Bool :=
   decide (idx_fetch_add___total < idx_update_credit_if_auto___prev___total__) &&
   decide (idx_update_credit_if_auto___prev___total__ < 1000)
 
+/-- source fact: `on_complete_transfer` takes the credit (`consume(1)`) before it decodes the payload, so
+    that `onRecv` is the accounting of every completed delivery, decodable as the type the application
+    asked for or not -/
+def creditTakenBeforeDecoding : Bool :=
+  open credit_before_decoding in
+  decide (idx_self___flow_state___consume___1____ < idx_decode_message_from_reader) &&
+  decide (idx_decode_message_from_reader < 1000)
+
 /-- `ReceiverInner::resume_incoming_attach` when nothing is queued: the delivery-count is the one the
     sender's new attach carries, and the credit held is issued again (`set_credit(link_credit)`) -/
 def resume (s : RSt) (idc : Nat) : RSt × List Out :=
